@@ -318,3 +318,43 @@ def total_write(P, R, ann, rule: str) -> None:
                 R.ok(rule, m, loops[0], label, "every normal exit passes the loop", via="cfg-must-pass")
     if n == 0:
         R.undecided(rule, ann, "", f"{ann.name}: write kernels write every element they are handed", "no kernel with a list parameter and a catch-all loop found")
+
+
+def nested_total_write(P, R, f, rule: str) -> None:
+    """An annotation pass that visits pairs (outer loop over sources, inner loop over targets) writes the attribute for
+    every pair that is an edge: inside one iteration of the outer loop, every way to the next iteration goes through the
+    inner loop.  A `continue` ("this source overlaps nothing") in front of it leaves those edges without the attribute
+    although it was requested - the neutral value is part of the result."""
+    import ast as _ast
+
+    from ..cfg import build_cfg
+    from ..model import norm as _norm
+
+    writes = [s for s in _ast.walk(f.node) if isinstance(s, _ast.Assign) and isinstance(s.targets[0], _ast.Subscript) and ".edges[" in _norm(s.targets[0])]
+    label = f"{f.short}: every visited pair that is an edge gets the attribute"
+    if not writes:
+        R.undecided(rule, f, f.node, label, "edge attribute write not found")
+        return
+    cfg = build_cfg(f.node)
+    n = 0
+    for w in writes:
+        loops = [lp for lp in _ast.walk(f.node) if isinstance(lp, _ast.For) and any(x is w for x in _ast.walk(lp))]
+        loops.sort(key=lambda lp: sum(1 for _ in _ast.walk(lp)))
+        if len(loops) < 2:
+            continue
+        inner, outer = loops[0], loops[1]
+        hi, ho = cfg.node_of(inner), cfg.node_of(outer)
+        if hi is None or ho is None:
+            continue
+        n += 1
+        body_entries = [s for s in cfg.succ(ho) if cfg.g.edges[ho, s].get("label") == "true"]
+        skip = any(cfg.reachable(b, ho, avoiding={hi}) for b in body_entries if b != hi)
+        if skip:
+            conts = [c for c in _ast.walk(outer) if isinstance(c, _ast.Continue) and not any(c is x for x in _ast.walk(inner))]
+            R.fail(rule, f, conts[0] if conts else outer, label,
+                   f"an iteration of the loop over `{_norm(outer.target)}` can end without entering the loop over `{_norm(inner.target)}`: the edges of that source "
+                   "keep no value at all (requested IoU missing instead of 0)")
+        else:
+            R.ok(rule, f, inner, label, "every path through an outer iteration enters the writing loop", via="cfg-must-pass")
+    if n == 0:
+        R.undecided(rule, f, f.node, label, "nested pair loops not recognised")
